@@ -52,6 +52,10 @@ class _OldLift(ast.NodeTransformer):
         self.olds = []
 
     def visit_Call(self, node):
+        if isinstance(node.func, ast.Name) and node.func.id == "implies" and len(node.args) == 2:
+            # lazy implication: the consequent is only evaluated when the antecedent holds
+            a, b = self.visit(node.args[0]), self.visit(node.args[1])
+            return ast.copy_location(ast.BoolOp(op=ast.Or(), values=[ast.UnaryOp(op=ast.Not(), operand=a), b]), node)
         if isinstance(node.func, ast.Name) and node.func.id == "old" and len(node.args) == 1:
             self.olds.append(node.args[0])
             return ast.copy_location(ast.Name(id=f"__old{len(self.olds) - 1}", ctx=ast.Load()), node)
